@@ -11,9 +11,18 @@ use std::path::Path;
 use crate::shim::Ev;
 use crate::util::{hash_bytes, hash_combine};
 
+#[derive(Clone, Debug, PartialEq, Eq)]
+pub enum Extra {
+    Dir(String),
+    /// (name, target)
+    Symlink(String, String),
+}
+
 #[derive(Clone, Debug, Default, PartialEq, Eq)]
 pub struct Image {
     pub files: BTreeMap<String, Vec<u8>>,
+    /// non-regular entries (sub-directories, symlinks) used by the hostile-directory checks
+    pub extras: Vec<Extra>,
 }
 
 impl Image {
@@ -29,7 +38,7 @@ impl Image {
                 }
             }
         }
-        Image { files }
+        Image { files, extras: Vec::new() }
     }
 
     /// Write the image into `dir` (emptied first).
@@ -37,6 +46,16 @@ impl Image {
         crate::util::clear_dir(dir);
         for (n, d) in &self.files {
             std::fs::write(dir.join(n), d).expect("materialize image file");
+        }
+        for x in &self.extras {
+            match x {
+                Extra::Dir(n) => {
+                    let _ = std::fs::create_dir_all(dir.join(n));
+                }
+                Extra::Symlink(n, target) => {
+                    let _ = std::os::unix::fs::symlink(target, dir.join(n));
+                }
+            }
         }
     }
 
